@@ -199,4 +199,32 @@ def simplify (sqrt : α → α) (big : α) (T : Trk α) (tol : α) (mode : Int) 
   | .nameError => .error "NameError"
   | _ => .error "unsupported"
 
+/-! ### the attribute `no_data_value` (set by the readers: `TrackReader.readFromFile` stores the format's value, default
+`-999999`, and places a fix at `(no_data, no_data, no_data)` for a line whose E or N field is blank / `NA`)
+
+`simplify`, `douglas_peucker` and `visvalingam` never read it: the placeholder fixes are ordinary observations of the
+track (`Track.removeNoDataValues()` is a separate call that the user may make, it is not on this path). What happens to the
+attribute itself: Douglas–Peucker builds its result with `Track(…)` / `Track.__add__`, whose constructor sets
+`no_data_value = None`; Visvalingam returns the (deep) copy of the input, attribute included. -/
+
+/-- a `Track` with its `no_data_value` attribute (`none` = Python `None`, the constructor's value) -/
+structure TrkN (α : Type) where
+  trk : Trk α
+  nodata : Option α
+deriving Repr, BEq, DecidableEq
+
+/-- `simplify(track, tolerance, mode)` on a track carrying `no_data_value`: the observations are those of `simplify` on the
+same track without the attribute (it is never read); the result's attribute is `None` after Douglas–Peucker (a new
+`Track`) and the input's after Visvalingam (the copy) -/
+def simplifyN (sqrt : α → α) (big : α) (T : TrkN α) (tol : α) (mode : Int) : Except String (TrkN α) :=
+  match simplify sqrt big T.trk tol mode with
+  | .ok O => .ok ⟨O, if dispatch mode = .visvalingam then T.nodata else none⟩
+  | .error e => .error e
+
+/-- `Network.simplify(tolerance, mode)`: `for id in self.__idx_edges: self.EDGES[id].geom = simplify(self.EDGES[id].geom,
+tolerance, mode)` — the edges' geometries in insertion order, the first exception ends the call (`verbose` keeps its
+default) -/
+def netSimplify (sqrt : α → α) (big : α) (geoms : List (TrkN α)) (tol : α) (mode : Int) : Except String (List (TrkN α)) :=
+  geoms.mapM (fun g => simplifyN sqrt big g tol mode)
+
 end TV.Simplify
